@@ -40,6 +40,8 @@ type peer struct {
 	state   peerState
 	// client-side stream
 	stream *stream
+	// synced is set once the full state has been queued for the current session.
+	synced bool
 }
 
 type stream struct {
@@ -237,7 +239,9 @@ func (p *peer) initStream(client FederationClient, conn *grpc.ClientConn) (s *st
 		return nil, fmt.Errorf("handshake error: %s", err.Error())
 	}
 	log.Info("handshake succeed", zap.String("remote_node", p.member.Name), zap.Bool("clean_start", sh.CleanStart))
-	if sh.CleanStart {
+	// A ServerHello with CleanStart may get lost on its way: the retried handshake is then answered
+	// with CleanStart == false although the full state has never been queued.
+	if sh.CleanStart || (!p.synced && sh.NextEventId == 0) {
 		p.queue.clear()
 		// sync full state
 		p.fed.localSubStore.Lock()
@@ -261,6 +265,7 @@ func (p *peer) initStream(client FederationClient, conn *grpc.ClientConn) (s *st
 			})
 			return true
 		})
+		p.synced = true
 	}
 	p.queue.setReadPosition(sh.NextEventId)
 	md := metadata.Pairs("node_name", p.localName)
